@@ -81,6 +81,10 @@ class C08(Spec):
                 else:
                     keys += [27, 127]
             cases.append(Case("uistress", [rng.randrange(1000)] + list_tokens(keys), {"keys": keys}))
+        # keys that leave "opening" mode while a slow media hook is still running
+        for ks in ([49, 13, 27], [49, 13, 58], [49, 13, 50], [49, 13, 127], [49, 13, 106]):
+            cases.append(Case("uihook", ks, {"keys": ks * 8, "hook": 1}))
+        env["VERIF_DUMP_DELAY_MS"] = "300"
         b = Batch("c08-stress", cases, config="[media]\nhook = [\"vdump\", \"%url\"]\n", env=env, timeout=900,
                   correspondence="real ui.State under concurrent Update / SetWidthHeight / loaders")
         b.parallel = False
